@@ -28,7 +28,7 @@ use self::slot_state::{IgnoreReason, SlotState};
 use super::{Cert, ValidatedCert, ValidatedVote, ValidatorEpochInfo, Vote};
 use crate::consensus::cert::NotarCert;
 use crate::consensus::pool::finality_tracker::FinalizationEvent;
-use crate::crypto::merkle::BlockHash;
+use crate::crypto::merkle::{BlockHash, GENESIS_BLOCK_HASH};
 use crate::types::SLOTS_PER_EPOCH;
 use crate::{BlockId, Slot, ValidatorIndex};
 
@@ -571,8 +571,13 @@ impl Pool for PoolImpl {
         }
 
         self.slot_state(*slot).notify_parent_known(block_hash);
-        if let Some(parent_state) = self.slot_states.get(parent_slot)
-            && parent_state.is_notar_fallback_or_stronger(parent_hash)
+        // the genesis block is a valid parent by definition, there is no certificate for it
+        let parent_certified = (parent_slot.is_genesis() && *parent_hash == GENESIS_BLOCK_HASH)
+            || self
+                .slot_states
+                .get(parent_slot)
+                .is_some_and(|state| state.is_notar_fallback_or_stronger(parent_hash));
+        if parent_certified
             && let Some(output) = self
                 .slot_state(*slot)
                 .notify_parent_certified(block_hash.clone())
